@@ -77,7 +77,31 @@ fn fail(ctx: &mut WorkerCtx, w: u32, op: &str, args: String, expected: String, g
     );
 }
 
+thread_local! {
+    static PANICS: std::cell::RefCell<std::collections::HashMap<(&'static str, u32), u32>> = std::cell::RefCell::new(std::collections::HashMap::new());
+}
+
+/// Run one contract check; a panic inside the helper under test is a violation of the contract for
+/// these operands (recorded, not fatal for the worker). After 200 panics of one (operation, width) the
+/// operation is no longer called at that width: unwinding 2^32 times would never finish.
+fn guard(ctx: &mut WorkerCtx, w: u32, op: &'static str, args: &dyn Fn() -> String, f: &mut dyn FnMut(&mut WorkerCtx)) {
+    let seen = PANICS.with(|p| p.borrow().get(&(op, w)).copied().unwrap_or(0));
+    if seen >= 200 {
+        return;
+    }
+    let r = std::panic::catch_unwind(std::panic::AssertUnwindSafe(|| f(ctx)));
+    if let Err(p) = r {
+        PANICS.with(|m| *m.borrow_mut().entry((op, w)).or_insert(0) += 1);
+        let msg = hshim::exec::panic_message(p);
+        fail(ctx, w, op, args(), "a value (no panic)".into(), format!("panic: {msg}"));
+    }
+}
+
 fn check_div<C: Cell>(ctx: &mut WorkerCtx, n: u64, d: u64) {
+    guard(ctx, C::BITS, "wrapping_div", &|| format!("{n},{d}"), &mut |ctx| check_div_inner::<C>(ctx, n, d));
+}
+
+fn check_div_inner<C: Cell>(ctx: &mut WorkerCtx, n: u64, d: u64) {
     let got = <C as CellType>::wrapping_div(C::from_u64(n), C::from_u64(d)).map(|x| x.into_u64());
     let exp = ref_div(n & C::mask(), d & C::mask(), C::BITS);
     if got != exp {
@@ -86,6 +110,10 @@ fn check_div<C: Cell>(ctx: &mut WorkerCtx, n: u64, d: u64) {
 }
 
 fn check_inv<C: Cell>(ctx: &mut WorkerCtx, v: u64) {
+    guard(ctx, C::BITS, "wrapping_inv", &|| format!("{v}"), &mut |ctx| check_inv_inner::<C>(ctx, v));
+}
+
+fn check_inv_inner<C: Cell>(ctx: &mut WorkerCtx, v: u64) {
     let got = <C as CellType>::wrapping_inv(C::from_u64(v)).map(|x| x.into_u64());
     let exp = if v & 1 == 1 { Some(ref_inv(v) & C::mask()) } else { None };
     if got != exp {
@@ -98,6 +126,10 @@ fn check_inv<C: Cell>(ctx: &mut WorkerCtx, v: u64) {
 }
 
 fn check_conv<C: Cell>(ctx: &mut WorkerCtx, v: u64) {
+    guard(ctx, C::BITS, "into_i64", &|| format!("{v}"), &mut |ctx| check_conv_inner::<C>(ctx, v));
+}
+
+fn check_conv_inner<C: Cell>(ctx: &mut WorkerCtx, v: u64) {
     let c = C::from_u64(v);
     let m = C::mask();
     if c.into_u64() != v & m {
@@ -162,6 +194,10 @@ fn check_consts<C: Cell>(ctx: &mut WorkerCtx) {
 
 /// pow(base, e) for e = 0..count by running product.
 fn check_pow_run<C: Cell>(ctx: &mut WorkerCtx, base: u64, count: u64) {
+    guard(ctx, C::BITS, "wrapping_pow", &|| format!("{base},{}", count.saturating_sub(1)), &mut |ctx| check_pow_run_inner::<C>(ctx, base, count));
+}
+
+fn check_pow_run_inner<C: Cell>(ctx: &mut WorkerCtx, base: u64, count: u64) {
     let mut p = 1u64;
     for e in 0..count {
         let got = <C as CellType>::wrapping_pow(C::from_u64(base), C::from_u64(e)).into_u64();
@@ -175,6 +211,10 @@ fn check_pow_run<C: Cell>(ctx: &mut WorkerCtx, base: u64, count: u64) {
 
 /// Huge exponents through the exponent-addition law: b^(e1+e2) = b^e1 * b^e2.
 fn check_pow_law<C: Cell>(ctx: &mut WorkerCtx, base: u64, e1: u64, e2: u64) {
+    guard(ctx, C::BITS, "wrapping_pow-law", &|| format!("{base},{e1}+{e2}"), &mut |ctx| check_pow_law_inner::<C>(ctx, base, e1, e2));
+}
+
+fn check_pow_law_inner<C: Cell>(ctx: &mut WorkerCtx, base: u64, e1: u64, e2: u64) {
     let m = C::mask();
     let (e1, e2) = (e1 & m, e2 & m);
     let Some(sum) = e1.checked_add(e2) else { return };
